@@ -14,12 +14,20 @@
   scanning-curve monotonicity, Killough's non-wetting model (`_partial`).  WAG, capillary
   pressure hysteresis, Killough for the wetting phase, Stone 1/2 and the LET / gas-water
   families are not covered by theorems (see design.d/C15.md).
+
+  Third round (`Model/HystFull.lean`): the complete hysteresis object without WAG — relperm models
+  −1…4 (Killough for the wetting phase included), Killough's capillary-pressure hysteresis with the
+  initial-imbibition branch, the three two-phase system types, `update(pcSw, krwSw, krnSw)` with
+  independent saturations: bookkeeping (running minima / maximum, idempotent update, repeated
+  history), derived members consistent after every history, trapped saturation and scanning-curve
+  end points and ranges, Carlson identity for the complete object.
 -/
 import Mathlib.Tactic.NormNum
 import Mathlib.Algebra.Order.Field.Rat
 import OpmVerif.Proofs.Satfunc
 import OpmVerif.Proofs.Satfunc3
 import OpmVerif.Proofs.SatDeck
+import OpmVerif.Proofs.HystFull
 
 namespace OpmVerif.Props.C15
 open OpmVerif.Tab1D OpmVerif.Eps OpmVerif.Hyst OpmVerif.SatDeck
@@ -334,12 +342,16 @@ theorem threephase_oil_limits (k : Consts K) (hk : 0 < k.eps) (swco : K) (krnOW 
    fun sw sg h1 h2 => defaultKrn_gas_oil k swco krnOW krwGO sw sg h1 h2 hk⟩
 
 /-- `updateHysteresis` of a cell: both reversal saturations are running minima of `1 − So` and
-`1 − Swl − Sg` (clamped saturations). -/
+`1 − Swl − Sg` (clamped saturations) — third round: for the complete hysteresis object, i.e. every
+EHYSTR model; `krwSwMdc_` is the running maximum and (flag PC / BOTH) `pcSwMdc_` the running minimum
+of `Sw` resp. `So`. -/
 theorem deck_hyst_minimum (c : Cell K) (st : CellState K) (s : Sat K) (h : c.ow.enabled = true) :
-    (updateCell c st s).ow.c.mdc = min st.ow.c.mdc (1 - clamp01 s.so) ∧
-    (updateCell c st s).go.c.mdc = min st.go.c.mdc (1 - c.swl - clamp01 s.sg) ∧
-    (updateCell c st s).ow.k.mdc = min st.ow.k.mdc (1 - clamp01 s.so) ∧
-    (updateCell c st s).go.k.mdc = min st.go.k.mdc (1 - c.swl - clamp01 s.sg) :=
+    (updateCell c st s).ow.krnMdc = min st.ow.krnMdc (1 - clamp01 s.so) ∧
+    (updateCell c st s).go.krnMdc = min st.go.krnMdc (1 - c.swl - clamp01 s.sg) ∧
+    (updateCell c st s).ow.krwMdc = max st.ow.krwMdc (clamp01 s.sw) ∧
+    (updateCell c st s).go.krwMdc = max st.go.krwMdc (clamp01 s.so) ∧
+    (c.ow.cfg.pcModel = 0 → (updateCell c st s).ow.pcMdc = min st.ow.pcMdc (clamp01 s.sw)) ∧
+    (c.go.cfg.pcModel = 0 → (updateCell c st s).go.pcMdc = min st.go.pcMdc (clamp01 s.so)) :=
   updateCell_mdc c st s h
 
 /-! ## Second round: hysteresis -/
@@ -360,7 +372,9 @@ theorem hyst_krn_antitone (c : Curves K) (st : State K)
 history the relperm follows the drainage curve until the first reversal, the scanning curve is
 continuous at the reversal point and ends at the trapped saturation of Land's formula — for the
 non-wetting AND (model 4) the wetting phase, with or without capillary-pressure hysteresis.
-Proved: the non-wetting phase; missing: model 4's wetting-phase curve, Pc hysteresis, WAG. -/
+Proved here: the non-wetting phase on the second round's model; the third round's section below adds
+model 4's wetting-phase curve and the capillary-pressure hysteresis on the complete object
+(`hyst_refines_killough` ties the two); still missing: WAG. -/
 
 theorem killough_mdc_min_partial (p : Killough.Static K) (tiny : K) (h : List K) (st : Killough.State K) :
     (Killough.run p tiny st h).mdc = h.foldl min st.mdc :=
@@ -393,6 +407,128 @@ theorem killough_land_bounds_partial (p : Killough.Static K) (tiny sn : K)
     (h4 : p.Sncri + tiny ≤ p.Snmaxd) (h5 : 0 ≤ p.modParam) :
     p.Sncrd < Killough.land p tiny sn ∧ Killough.land p tiny sn ≤ sn :=
   Killough.killough_land_bounds_partial p tiny sn h1 h2 h3 h4 h5
+
+/-! ## Third round: the complete hysteresis object (`EclHysteresisTwoPhaseLawParams` without WAG) -/
+
+section full
+open OpmVerif.HystFull
+variable (c : Cfg K) (l : Lits K) (f : Laws K) (p : HystFull.Static K)
+
+/-- Reversal bookkeeping of `update(pcSw, krwSw, krnSw)` over every history of saturation triples:
+`krnSwMdc_` is the running minimum of the `krnSw`, `krwSwMdc_` the running maximum of the `krwSw`,
+`pcSwMdc_` the running minimum of the `pcSw` (when capillary-pressure hysteresis is on). -/
+theorem hyst_reversal_bookkeeping (h : List (Triple K)) (st : HystFull.State K) :
+    (HystFull.run c l f p st h).krnMdc = (h.map Triple.krn).foldl min st.krnMdc ∧
+    (HystFull.run c l f p st h).krwMdc = (h.map Triple.krw).foldl max st.krwMdc ∧
+    (c.pcModel = 0 → (HystFull.run c l f p st h).pcMdc = (h.map Triple.pc).foldl min st.pcMdc) :=
+  ⟨run_krnMdc c l f p h st, run_krwMdc c l f p h st, run_pcMdc c l f p h st⟩
+
+/-- **Idempotent update**: telling the object the same saturations twice is the same as once — for
+every relperm / capillary-pressure model, every state. -/
+theorem hyst_update_idempotent (st : HystFull.State K) (s : Triple K) :
+    HystFull.update c l f p (HystFull.update c l f p st s) s = HystFull.update c l f p st s :=
+  update_self c l f p st s
+
+/-- **Repeated saturation history**: running any history a second time changes nothing (all `pcSw`
+below 2.0, the start value of `pcSwMdc_`). -/
+theorem hyst_history_idempotent (h : List (Triple K)) (st : HystFull.State K) (h2 : ∀ s ∈ h, s.pc < l.two) :
+    HystFull.run c l f p (HystFull.run c l f p st h) h = HystFull.run c l f p st h :=
+  run_repeat c l f p h st h2
+
+/-- After `finalize()` and any history all derived members (`deltaSwImbKrn_`, `Sncrt_`, `Swcrt_`,
+`Krwd_sncrt_`, `KrndHy_`, `KrwdHy_`) are up to date with `krnSwMdc_`. -/
+theorem hyst_derived_consistent (he : c.enabled = true) (h : List (Triple K)) :
+    Consistent c f p (HystFull.run c l f p (HystFull.init c l f p) h) :=
+  HystFull.run_consistent c l f p h _ (HystFull.init_consistent c l f p he)
+
+/-- Drainage until the first reversal, every model (Carlson, Killough, model 4, off). -/
+theorem hyst_full_drainage_until_reversal (st : HystFull.State K) (h : List (Triple K)) (sw : K)
+    (h0 : sw ≤ st.krnMdc) (hall : ∀ s ∈ h, sw ≤ s.krn) :
+    HystFull.krn c f p (HystFull.run c l f p st h) sw = f.krnD sw :=
+  krn_drainage_until_reversal c l f p st h sw h0 hall
+
+/-- Carlson identity for the complete object: identical curves, any history of triples, any
+capillary-pressure setting. -/
+theorem carlson_identity_full (he : c.enabled = true) (hm : c.krModel = 0 ∨ c.krModel = 1)
+    (fn fInv : K → K) (hD : f.krnD = fn) (hI : f.krnI = fn) (hInv : f.krnIInv = fInv) (h : List (Triple K))
+    (hinv : ∀ s, s = l.two ∨ s ∈ h.map Triple.krn → fInv (fn s) = s) (sw : K) :
+    HystFull.krn c f p (HystFull.run c l f p (HystFull.init c l f p) h) sw = fn sw :=
+  HystFull.carlson_identity_full c l f p he hm fn fInv hD hI hInv h hinv sw
+
+/-- For Killough's models the complete object's `twoPhaseSatKrn` is the second round's Killough
+model on the members (`krnSwMdc_`, `KrndHy_`, `Sncrt_`) — the `killough_*` theorems apply to it. -/
+theorem hyst_refines_killough (he : c.enabled = true) (hm : 2 ≤ c.krModel) (st : HystFull.State K) (sw : K) :
+    HystFull.krn c f p st sw = Killough.krn (toK c f p) (kill st) sw :=
+  krn_killough c f p he hm st sw
+
+/-- The trapped non-wetting saturation lies in `[Sncrd, max(Sncrd, Snhy)]` after every history. -/
+theorem killough_trapped_bounds (he : c.enabled = true) (h : List (Triple K)) (hk : c.killough = true)
+    (hC : p.C = 1 / (p.Sncri - p.Sncrd + l.tiny) - 1 / (p.Snmaxd - p.Sncrd))
+    (h2 : 1 - (HystFull.run c l f p (HystFull.init c l f p) h).krnMdc ≤ p.Snmaxd)
+    (h3 : 0 < p.Sncri - p.Sncrd + l.tiny) (h4 : p.Sncri + l.tiny ≤ p.Snmaxd) (h5 : 0 ≤ c.modParam) :
+    p.Sncrd ≤ (HystFull.run c l f p (HystFull.init c l f p) h).Sncrt ∧
+    (HystFull.run c l f p (HystFull.init c l f p) h).Sncrt ≤
+      max p.Sncrd (1 - (HystFull.run c l f p (HystFull.init c l f p) h).krnMdc) :=
+  sncrt_bounds c l f p _ (HystFull.run_consistent c l f p h _ (HystFull.init_consistent c l f p he)) hk hC h2 h3 h4 h5
+
+/-- Scanning-curve end points: the normalised saturation the imbibition curve is read at is `Snmaxd`
+at the reversal point, `Sncri` at the trapped saturation, and stays between them in between. -/
+theorem killough_scan_endpoints (st : HystFull.State K) (hi : p.Sncri ≤ p.Snmaxd) (hd : st.Sncrt < 1 - st.krnMdc) :
+    HystFull.snorm p st st.krnMdc = p.Snmaxd ∧ HystFull.snorm p st (1 - st.Sncrt) = p.Sncri ∧
+    ∀ sw, st.krnMdc ≤ sw → sw ≤ 1 - st.Sncrt → p.Sncri ≤ HystFull.snorm p st sw ∧ HystFull.snorm p st sw ≤ p.Snmaxd :=
+  ⟨snorm_reversal p st (by intro h; rw [sub_eq_zero] at h; exact absurd h (ne_of_gt hd)), snorm_trapped p st,
+   fun sw h1 h2 => snorm_range p st sw hi hd h1 h2⟩
+
+/-- **Range `[0, max]` of the hysteretic non-wetting relperm — every model, every history, every
+saturation** (drainage curve within `[0, KrndMax]`, imbibition curve within `[0, M]`). -/
+theorem hyst_krn_range (he : c.enabled = true) (h : List (Triple K)) (sw M : K) (hm : 0 < p.KrndMax)
+    (hD : ∀ x, 0 ≤ f.krnD x ∧ f.krnD x ≤ p.KrndMax) (hI : ∀ x, 0 ≤ f.krnI x ∧ f.krnI x ≤ M) :
+    0 ≤ HystFull.krn c f p (HystFull.run c l f p (HystFull.init c l f p) h) sw ∧
+    HystFull.krn c f p (HystFull.run c l f p (HystFull.init c l f p) h) sw ≤ max p.KrndMax M :=
+  krn_range c f p _ (HystFull.run_consistent c l f p h _ (HystFull.init_consistent c l f p he)) sw M hm hD hI
+
+/-- Killough, non-wetting phase: the scanning curve starts on the drainage curve (curves meeting at
+`Snmaxd`) and ends at zero at the trapped saturation. -/
+theorem killough_krn_scan_ends (st : HystFull.State K) (hc : st.KrndHy = f.krnD st.krnMdc)
+    (hd : (1 - st.krnMdc) - st.Sncrt ≠ 0) (hm : p.KrndMax ≠ 0) (hmeet : f.krnI (1 - p.Snmaxd) = p.KrndMax)
+    (hz : f.krnI (1 - p.Sncri) = 0) :
+    krnScan f p st st.krnMdc = f.krnD st.krnMdc ∧ krnScan f p st (1 - st.Sncrt) = 0 :=
+  ⟨krnScan_continuous f p st hc hd hm hmeet, krnScan_trapped f p st hz⟩
+
+/-- Killough, wetting phase (model 4): the scanning curve starts on the drainage curve at the
+reversal point and ends at `Krwi_snr` at the trapped saturation. -/
+theorem killough_krw_scan_ends (st : HystFull.State K) (hd : (1 - st.krnMdc) - st.Sncrt ≠ 0)
+    (hs : p.Krwi_snmax = f.krwI (1 - p.Snmaxd)) (hs' : p.Krwi_snrmax = f.krwI (1 - p.Sncri))
+    (hne : p.Krwi_snrmax - p.Krwi_snmax ≠ 0) :
+    krwScan l f p st st.krnMdc = st.KrwdHy ∧ krwScan l f p st (1 - st.Sncrt) = krwiSnr l p st :=
+  ⟨krwScan_continuous l f p st hd hs, krwScan_trapped l f p st hs' hne⟩
+
+/-- Killough capillary pressure, primary branch: drainage curve up to `pcSwMdc_`, imbibition curve
+beyond the trapped saturation. -/
+theorem killough_pc_branches (st : HystFull.State K) (he : c.enabled = true) (h0 : c.pcModel = 0) (hi : st.initialImb = false) :
+    (∀ sw, sw ≤ st.pcMdc → pcnw c l f p st sw = f.pcD sw) ∧
+    (∀ sw, st.pcMdc < sw → 1 - st.Sncrt ≤ sw → pcnw c l f p st sw = f.pcI sw) :=
+  ⟨fun sw h => pcnw_drainage c l f p st sw hi h, fun sw h h2 => pcnw_imbibition c l f p st sw he h0 hi h h2⟩
+
+/-- … and the scanning curve in between: `Pcd + F·(w·Pci − Pcd)` with `F ∈ [0,1]` (0 at the reversal
+point, so it starts continuously), between the two bounding curves. -/
+theorem killough_pc_scanning (st : HystFull.State K) (sw : K) (he : c.enabled = true) (h0 : c.pcModel = 0)
+    (hi : st.initialImb = false) (h : st.pcMdc < sw) (h2 : sw < 1 - st.Sncrt) (hcv : 0 < p.curv) :
+    ∃ F, 0 ≤ F ∧ F ≤ 1 ∧ F = kF p.curv (sw - st.pcMdc) ((1 - st.Sncrt) - st.pcMdc) ∧
+      pcnw c l f p st sw = f.pcD sw + F * (pcWght l f p * f.pcI sw - f.pcD sw) ∧
+      min (f.pcD sw) (pcWght l f p * f.pcI sw) ≤ pcnw c l f p st sw ∧
+      pcnw c l f p st sw ≤ max (f.pcD sw) (pcWght l f p * f.pcI sw) :=
+  pcnw_scanning c l f p st sw he h0 hi h h2 hcv
+
+theorem killough_pc_factor (cv d : K) (h : 1 / (d + cv) - 1 / cv ≠ 0) : kF cv 0 d = 0 ∧ kF cv d d = 1 :=
+  ⟨kF_zero cv d, kF_one cv d h⟩
+
+/-- No initial-imbibition branch outside the oil-water system. -/
+theorem hyst_initial_imbibition_only_oil_water (h : List (Triple K)) (how : p.ow = false) :
+    (HystFull.run c l f p (HystFull.init c l f p) h).initialImb = false :=
+  run_initialImb_false c l f p h _ how (init_initialImb c l f p)
+
+end full
 
 /-! ## Non-vacuity -/
 
@@ -440,5 +576,60 @@ example (x : ℚ) : plEval (finalizeCurve ([8 / 10, 4 / 10, 0] : List ℚ) [0, 3
     = plEval [8 / 10, 4 / 10, 0] [0, 3 / 10, 9 / 10] x :=
   finalize_invariant (xs := ([8 / 10, 4 / 10, 0] : List ℚ)) (ys := [0, 3 / 10, 9 / 10])
     (Or.inr (strictDec_three (by norm_num) (by norm_num))) (by simp) rfl x
+
+/-! ### Non-vacuity, third round -/
+
+section fullExamples
+open OpmVerif.HystFull
+
+/-- a concrete Killough object over ℚ: `Sncrd = 0.1`, `Sncri = 0.2`, `Snmaxd = 0.8`, linear curves -/
+def exLits : Lits ℚ := { tiny := 1 / 1000000000000, micro := 1 / 1000000, two := 2, m17 := -17 }
+def exCfg : Cfg ℚ := { enabled := true, krModel := 2, pcModel := 0, modParam := 1 / 10, curvature := 1 / 10 }
+def exLaws : Laws ℚ :=
+  { krwD := fun s => s, krnD := fun s => 1 - s, pcD := fun s => 2 - s, krwI := fun s => s / 2,
+    krnI := fun s => (1 - s) / 2, pcI := fun s => 1 - s, krnIInv := fun k => 1 - 2 * k }
+def exInfo : HInfo ℚ :=
+  { Swl := 2 / 10, Sgl := 0, Swcr := 25 / 100, Sgcr := 5 / 100, Sowcr := 1 / 10, Sogcr := 1 / 10, Swu := 1, Sgu := 8 / 10,
+    maxPcow := 2, maxPcgo := 1 }
+def exStatic : HystFull.Static ℚ := mkStatic .ow exCfg exLits exLaws exInfo { exInfo with Sowcr := 2 / 10 }
+def exHist : List (Triple ℚ) := [⟨6 / 10, 6 / 10, 7 / 10⟩, ⟨4 / 10, 4 / 10, 5 / 10⟩, ⟨5 / 10, 5 / 10, 6 / 10⟩]
+
+/-- a history with a reversal: `krnSwMdc_` is 0.5, the history seen twice leaves the object unchanged -/
+example : (HystFull.run exCfg exLits exLaws exStatic (HystFull.init exCfg exLits exLaws exStatic) exHist).krnMdc = 5 / 10 := by
+  rw [(hyst_reversal_bookkeeping exCfg exLits exLaws exStatic exHist _).1]
+  simp [exHist, exLits]; norm_num
+example : HystFull.run exCfg exLits exLaws exStatic
+      (HystFull.run exCfg exLits exLaws exStatic (HystFull.init exCfg exLits exLaws exStatic) exHist) exHist =
+    HystFull.run exCfg exLits exLaws exStatic (HystFull.init exCfg exLits exLaws exStatic) exHist :=
+  hyst_history_idempotent exCfg exLits exLaws exStatic exHist _ (by
+    intro s hs; simp [exHist] at hs; rcases hs with rfl | rfl | rfl <;> norm_num [exLits])
+/-- the hypotheses of `killough_trapped_bounds` hold for this object and history (Land's constant is
+the one `finalize()` computes) -/
+example : exStatic.Sncrd ≤ (HystFull.run exCfg exLits exLaws exStatic (HystFull.init exCfg exLits exLaws exStatic) exHist).Sncrt ∧
+    (HystFull.run exCfg exLits exLaws exStatic (HystFull.init exCfg exLits exLaws exStatic) exHist).Sncrt ≤
+      max exStatic.Sncrd (1 - (HystFull.run exCfg exLits exLaws exStatic (HystFull.init exCfg exLits exLaws exStatic) exHist).krnMdc) := by
+  apply killough_trapped_bounds exCfg exLits exLaws exStatic rfl exHist
+  · rfl
+  · simp [exStatic, mkStatic, exCfg, Cfg.killough, exInfo, exLits]
+  · rw [(hyst_reversal_bookkeeping exCfg exLits exLaws exStatic exHist _).1]
+    simp [exHist, exLits, exStatic, mkStatic, exCfg, Cfg.killough, exInfo]; norm_num
+  · simp [exStatic, mkStatic, exCfg, Cfg.killough, exInfo, exLits]; norm_num
+  · simp [exStatic, mkStatic, exCfg, Cfg.killough, exInfo, exLits]; norm_num
+  · norm_num [exCfg]
+/-- Killough's interpolation factor half-way: curvature 0.1, distance 0.2 of 0.4 -/
+example : (0 : ℚ) ≤ kF (1 / 10) (2 / 10) (4 / 10) ∧ kF (1 / 10 : ℚ) (2 / 10) (4 / 10) ≤ 1 :=
+  HystFull.kF_range _ _ _ (by norm_num) (by norm_num) (by norm_num) (by norm_num)
+/-- the range theorem's hypotheses: both curves within `[0, 1]` on the unit interval are *not* needed
+pointwise outside it — take clamped linear curves -/
+example (sw : ℚ) (h : List (Triple ℚ)) :
+    0 ≤ HystFull.krn exCfg ⟨fun s => s, fun s => max 0 (min 1 (1 - s)), fun s => s, fun s => s, fun s => max 0 (min (1 / 2) ((1 - s) / 2)), fun s => s, fun k => k⟩
+          { exStatic with KrndMax := 1 }
+          (HystFull.run exCfg exLits ⟨fun s => s, fun s => max 0 (min 1 (1 - s)), fun s => s, fun s => s, fun s => max 0 (min (1 / 2) ((1 - s) / 2)), fun s => s, fun k => k⟩ { exStatic with KrndMax := 1 }
+            (HystFull.init exCfg exLits ⟨fun s => s, fun s => max 0 (min 1 (1 - s)), fun s => s, fun s => s, fun s => max 0 (min (1 / 2) ((1 - s) / 2)), fun s => s, fun k => k⟩ { exStatic with KrndMax := 1 }) h) sw :=
+  (hyst_krn_range exCfg exLits _ { exStatic with KrndMax := 1 } rfl h sw (1 / 2) (by norm_num)
+    (fun x => ⟨le_max_left _ _, max_le (by norm_num) (min_le_left _ _)⟩)
+    (fun x => ⟨le_max_left _ _, max_le (by norm_num) (min_le_left _ _)⟩)).1
+
+end fullExamples
 
 end OpmVerif.Props.C15
